@@ -4,7 +4,7 @@
    as finite tables computed by the implementation's own code, so that exactly the
    descriptor logic is compared. *)
 From Coq Require Import String.
-From V Require Import Base.Prelude Base.Disp Model.Descriptor
+From V Require Import Base.Prelude Base.Disp Model.Descriptor Model.DescriptorText
   Spec.CoreDescChecksum.
 Open Scope string_scope.
 Open Scope Z_scope.
@@ -106,4 +106,60 @@ Definition dispatch (H : oracle) (fn : list Z) (args : list val) : val :=
     | _ => bad_args end
   else if fn_is "dec" fn then
     match args with [VI z] => VB (dec z) | _ => bad_args end
+  (* ---- text layer (Model/DescriptorText.v) ---- *)
+  else if fn_is "py_int" fn then
+    match args with [VB t] => vres_i (py_int t) | _ => bad_args end
+  else if fn_is "split_on" fn then
+    match args with [VI sep; VB t] => vbl (split_on sep t) | _ => bad_args end
+  else if fn_is "join_on" fn then
+    match args with
+    | [VI sep; VL l] => match vals_bytes l with Some ls => VB (join_on sep ls) | None => bad_args end
+    | _ => bad_args end
+  else if fn_is "re_key_record" fn then
+    match args with
+    | [VB t] => vopt (fun g => match g with (xfp, p, x) => VL [VB xfp; VB p; VB x] end) (re_key_record t)
+    | _ => bad_args end
+  else if fn_is "parse_partial" fn then
+    match args with
+    | [VB t; VL paths; VL xpubs] =>
+        vres (fun g => match g with (xfp, p, x, net) => VL [VB xfp; VB p; VB x; VI net] end)
+             (parse_partial_text (tbl_flag paths) (tbl_hdparse xpubs) t)
+    | _ => bad_args end
+  else if fn_is "parse_full" fn then
+    match args with
+    | [VB t; VL paths; VL xpubs; VL children] =>
+        vres (fun g => VL [vrec (fst g); VI (snd g)])
+             (parse_full_text (tbl_flag paths) (tbl_hdparse xpubs) (tbl_child children) t)
+    | _ => bad_args end
+  else if fn_is "parse_any" fn then
+    match args with
+    | [VB t; VL paths; VL xpubs; VL children] =>
+        vres (fun g => match g with (xfp, p, x, net, oi) => VL [VB xfp; VB p; VB x; VI net; vopt VI oi] end)
+             (parse_any_text (tbl_flag paths) (tbl_hdparse xpubs) (tbl_child children) t)
+    | _ => bad_args end
+  else if fn_is "parse_text" fn then
+    match args with
+    | [VB t; VL js; VL paths; VL xpubs; VL children] =>
+        let json := fun _ : list Z => match js with [VB j] => Ok j | _ => Err end in
+        vres vdesc (parse_text (tbl_flag paths) (tbl_hdparse xpubs) (tbl_child children) json t)
+    | _ => bad_args end
+  else if fn_is "outer_groups" fn then
+    match args with
+    | [VB t] => vopt (fun g => match g with (ds, krs, cs) => VL [VB ds; VB krs; VB cs] end) (outer_groups t)
+    | _ => bad_args end
+  else if fn_is "unescape" fn then
+    match args with [VB t] => VB (unescape t) | _ => bad_args end
+  else if fn_is "strip" fn then
+    match args with [VB t] => VB (strip t) | _ => bad_args end
+  else if fn_is "path_valid" fn then
+    match args with [VB t] => vbool (is_valid_path t) | _ => bad_args end
+  else if fn_is "m_of_n" fn then
+    match args with
+    | [VI m; VL recs] =>
+        match recs_of recs with
+        | Some rs => let d := {| d_m := m; d_recs := rs; d_text := []; d_checksum := []; d_net := 0 |} in
+                     VL [VI (quorum_n d); VB (m_of_n d)]
+        | None => bad_args
+        end
+    | _ => bad_args end
   else bad_args.
